@@ -533,7 +533,7 @@ def model_check(rep, work, quick, seed):
     nsh = 8 if quick else 16
     rep_max = "2" if quick else "3"
     extra = ["-noGenerateSpecTE"]
-    w = 2 if quick else 4
+    w = 2 if quick else 6
 
     def run(name, module, cfg, env=None, workers=w, timeout=1500):
         return name, vc.tlc(work.dir, module, cfg, env=env, workers=workers, timeout=timeout, extra=extra, xmx="4g")
@@ -765,7 +765,7 @@ def run(tier, seed, replay_path):
             mcf = ex.submit(model_check, rep, work, quick, seed)
             cases = witness_cases()
             cases += tlc_generated_cases(rep, work, r, seed, quick)
-            cases += json_fault_cases(r, 6 if quick else 40, 260 if quick else 100000, big=not quick)
+            cases += json_fault_cases(r, 6 if quick else 70, 260 if quick else 100000, big=not quick)
             cases += bigdoc_cases(r, 250 if quick else 4000)
             cases += other_json_routes(r, 120 if quick else 1500)
             cases += stream_cases(r, 150 if quick else 2500)
